@@ -276,6 +276,13 @@ class Ctx:
         self.nvar = self.F.num_var(self.flag)
         self.snames = list(P.state_sets[cfg["sset"]]) if self.tomo != "qst" else []
         self.pnames = list(P.povm_sets[cfg["pset"]]) if self.tomo != "povmt" else []
+        rev = cfg.get("rev", 0)
+        if rev == 1:      # the same testers at OTHER list positions
+            self.snames.reverse()
+            self.pnames.reverse()
+        elif rev == 2:
+            self.snames = self.snames[1:] + self.snames[:1]
+            self.pnames = self.pnames[1:] + self.pnames[:1]
         self.r_states = [P.states[n] for n in self.snames]
         self.r_povms = [P.povms[n] for n in self.pnames]
         # reference-side coefficient vectors of tester states and transposed-flattened POVM elements
